@@ -122,6 +122,30 @@ func Scaling(n int) map[string][]byte {
 	}
 	sb.WriteString("}\n")
 	m["nesting"] = []byte(sb.String())
+	// nesting of constructs that open a Go block in the generated code (deeper Go indentation, not deeper HTML)
+	if k := min(n, 500); k > 0 {
+		for name, opener := range map[string]string{"nesting-if": "- if true", "nesting-for": "- for i := 0; i < 1; i++", "nesting-render": "= @render W()", "nesting-comment": "/"} {
+			sb.Reset()
+			sb.WriteString("package x\n\n@goht W() {\n\t= @children\n}\n\n@goht T() {\n")
+			for i := 0; i < k; i++ {
+				sb.WriteString(strings.Repeat("\t", i+1) + opener + "\n")
+			}
+			sb.WriteString(strings.Repeat("\t", k+1) + "%p bottom\n}\n")
+			m[name] = []byte(sb.String())
+		}
+	}
+	// width instead of depth: one very long text line, one element with n classes, n sibling lines, an if / else-if chain
+	sb.Reset()
+	sb.WriteString("package x\n\n@goht T(n int) {\n\t%p " + strings.Repeat("lorem #{n} ipsum ", n) + "\n\t%p" + strings.Repeat(".c", n) + " x\n")
+	for i := 0; i < n; i++ {
+		fmt.Fprintf(&sb, "\t%%i= %d\n", i)
+	}
+	sb.WriteString("\t- if n == 0\n\t\t%b 0\n")
+	for i := 1; i < n; i++ {
+		fmt.Fprintf(&sb, "\t- else if n == %d\n\t\t%%b %d\n", i, i)
+	}
+	sb.WriteString("}\n")
+	m["width"] = []byte(sb.String())
 	sb.Reset()
 	sb.WriteString("package x\n\n")
 	for i := 0; i < n; i++ {
